@@ -122,6 +122,45 @@ CHECKS = {
             "States deduplicated by the raw override attributes; class-wide render method read through the renderer's "
             "own attribute lookup and confirmed by renders; mixed interleavings and unmerged histories to bounded depth.",
             "DESIGN.md 3/C20, B.3"),
+    "C01": ("exploration",
+            "exhaustive product-grid enumeration; every render executed at every fitting cursor position on a terminal model",
+            "Unions of full products (geometry: identity x method x mix x blend x every size in cells x every cell size; "
+            "payload: alpha x source x z x compress x jpeg x read_from_file x source kind; format()/str() entry points; "
+            "automatic sizing) are rendered by the real block/kitty/iterm2 renderers. Every distinct render string is "
+            "executed on the terminal model at every (row, anchor column) where its rectangle fits on every screen "
+            "(w..w+2/3) x (h..h+2/3): it must touch exactly the rectangle, never wrap or scroll, end on the last line "
+            "just past the last column, reset attributes, leave no sequence incomplete, and contain h-1 newlines. "
+            "Additionally every frame of a cached or uncached ImageIterator under every schedule of at most 1 (quick) / "
+            "2 (thorough) terminal resizes between frames must occupy the rectangle rendered_size advertises.",
+            "Trusts vlib/vterm.py (anchored line-start semantics, DESIGN 2.2) and PIL for the sources. The world "
+            "terminal is fixed at 20x10 for manual sizes. A dropped per-line SGR reset is not observable under this "
+            "statement (it is under C05).",
+            "DESIGN.md 3/C01"),
+    "C02": ("exploration",
+            "exhaustive enumeration of all images over a pixel alphabet up to a width bound, per-pixel reference oracle",
+            "Every one-line image of width 1..3 cells (thorough: 8-value pixel alphabet, width 4 over 4 values; quick: "
+            "5 values) and every 2-line x 2-cell image over 3 values is rendered under every alpha setting x terminal "
+            "background {known, known with r=255, unknown} x kitty workaround on/off x split_cells. Every cell half "
+            "shown by the terminal model must equal a per-pixel reference (opaque RGB, composite over the requested or "
+            "terminal colour, terminal default below the threshold, red +-1 for the documented kitty workaround). Plus "
+            "ten source modes pixel for pixel, uniform sources through the resampling path at every size 1..6 x 1..4, "
+            "and the str()/format() entry points.",
+            "PIL mode conversion, 1-pixel alpha_composite and BOX resize are a trusted base. Threshold read as alpha < "
+            "round(t*255). An unknown terminal background composites over black.",
+            "DESIGN.md 3/C02"),
+    "C03": ("exploration",
+            "exhaustive enumeration of every payload length / render configuration, protocol decoder as oracle",
+            "Transmission.get_chunks() is run for every payload length 0..9300 (thorough 0..13000) x compression level x "
+            "payload kind, checked against the framing rules of the statement and reassembled by the terminal model's "
+            "decoder. Kitty lines/whole and iterm2 lines/whole/anim renders over sources on and around the 3072-byte "
+            "boundary, mixed-compressibility sources, small sources and all relevant modes, x cell sizes x sizes in "
+            "cells x compress x alpha x z/mix/blend x jpeg x read_from_file x source kind are decoded end to end: "
+            "stitched pixels compared byte for byte with PIL's convert/resize(BOX)/composite at the transmitted "
+            "resolution; size= must equal the payload length; native animations and read-from-file payloads must be the "
+            "untouched file exactly when the documented gate applies.",
+            "Decoder: vlib/vterm.py. PIL codecs and resampling are a trusted base. JPEG payloads judged on format, mode "
+            "and dimensions only. WHOLE may transmit either the render resolution or the source resolution.",
+            "DESIGN.md 3/C03"),
 }
 
 PENDING_REASON = "check not built yet in this round (design in DESIGN.md section 3); not claimed"
